@@ -48,10 +48,17 @@ Rebuild(E, M, r, c, form) == [p \in (1..r) \X (1..c) |->
 
 VARIABLE q
 Init == CASE Mode = "lists" -> q \in UNION {{<<s, g>> : s \in {1, 9997, 99999900}, g \in [1..(n - 1) -> {1, 2}]} : n \in 1..MaxN}
+          [] Mode = "perms" -> q \in UNION {{<<s, g>> : s \in {0, 1000}, g \in {f \in [1..n -> 1..(MaxN + 1)] : \A i, j \in 1..n : i # j => f[i] # f[j]}} : n \in 1..MaxN}
           [] Mode = "dmig" -> q \in UNION {{<<d, M, k>> : M \in Mats(d[1], d[2]), k \in {"dof", "plain", "dof2"}} : d \in Dims}
 Next == UNCHANGED q
 
-Ids == MkIds(q[1], q[2], 1)
+Ids == IF Mode = "perms" THEN [i \in 1..Len(q[2]) |-> q[1] + q[2][i]] ELSE MkIds(q[1], q[2], 1)
+\* id lists in ANY order (a writer is handed the ids as the caller has them): THRU items are maximal stretches of adjacent +1 steps, and the
+\* reader's expansion gives the same ids in the same order; no law about the runs being separated holds here (3, 1, 2 has runs 3 and 1-2)
+PermLaws == Mode = "perms" =>
+   /\ Expand(ThruItems(Ids)) = Ids
+   /\ \A i \in 1..Len(Runs(Ids)) : Runs(Ids)[i][1] <= Runs(Ids)[i][2]
+ExportPerms == (Mode = "perms" /\ Export) => PrintT(<<"PERM", Ids, Runs(Ids)>>)
 ListLaws == Mode = "lists" =>
    /\ Expand(ThruItems(Ids)) = Ids
    /\ \A i \in 1..Len(Runs(Ids)) : Runs(Ids)[i][1] <= Runs(Ids)[i][2]
